@@ -370,8 +370,13 @@ class Interp:
             if op == "||":
                 a = self.truth(self.ev(x[2], fr))
                 return Box(a or self.truth(self.ev(x[3], fr)), True)
-            a = self.ev(x[2], fr).v
+            abox = self.ev(x[2], fr)
+            a = abox.v
             b = self.ev(x[3], fr).v
+            if abox.v is not a and abox.v != a:
+                # evaluating the right operand changed the variable the left operand names (a call with a side effect): whether the operator sees
+                # the old or the new value is an evaluation-order question the documentation (like C++ before C++17) leaves open
+                raise Discard("left operand modified by a side effect of the right operand")
             return Box(self.binop(op, a, b), True)
         if k == "un":
             a = self.ev(x[2], fr).v
